@@ -14,6 +14,7 @@ import (
 	"mime"
 	"strconv"
 	"strings"
+	"sync/atomic"
 	"time"
 
 	"github.com/la5nta/wl2k-go/transport"
@@ -441,6 +442,9 @@ func (s *Session) writeCompressed(rw io.ReadWriter, p *Proposal) (err error) {
 
 	buffer := bytes.NewBuffer(p.compressedData[p.offset:])
 
+	// Number of bytes not yet written. Accessed atomically, as it is shared with the status goroutine.
+	remaining := int64(buffer.Len())
+
 	// Update Status of message transfer every 250ms
 	statusTicker := time.NewTicker(250 * time.Millisecond)
 	statusDone := make(chan struct{})
@@ -458,7 +462,7 @@ func (s *Session) writeCompressed(rw io.ReadWriter, p *Proposal) (err error) {
 					txBufLen = b.TxBufferLen()
 				}
 
-				transferred := p.compressedSize - buffer.Len() - txBufLen
+				transferred := p.compressedSize - int(atomic.LoadInt64(&remaining)) - txBufLen
 				if transferred < 0 {
 					transferred = 0
 				}
@@ -474,7 +478,7 @@ func (s *Session) writeCompressed(rw io.ReadWriter, p *Proposal) (err error) {
 				if s.statusUpdater != nil {
 					s.statusUpdater.UpdateStatus(Status{
 						Sending:          p,
-						BytesTransferred: p.compressedSize - buffer.Len(),
+						BytesTransferred: p.compressedSize - int(atomic.LoadInt64(&remaining)),
 						BytesTotal:       p.compressedSize,
 						Done:             true,
 					})
@@ -498,6 +502,7 @@ func (s *Session) writeCompressed(rw io.ReadWriter, p *Proposal) (err error) {
 
 		for i := 0; i < msgLen; i++ {
 			c, _ := buffer.ReadByte()
+			atomic.AddInt64(&remaining, -1)
 			if err := writer.WriteByte(c); err != nil {
 				return err
 			}
@@ -543,6 +548,7 @@ func (s *Session) readCompressed(rw io.ReadWriter, p *Proposal) (err error) {
 	var (
 		ourChecksum int
 		buf         bytes.Buffer
+		received    int64 // Number of bytes in buf. Accessed atomically, as it is shared with the status goroutine.
 	)
 
 	var c byte
@@ -611,7 +617,7 @@ func (s *Session) readCompressed(rw io.ReadWriter, p *Proposal) (err error) {
 			if s.statusUpdater != nil {
 				s.statusUpdater.UpdateStatus(Status{
 					Receiving:        p,
-					BytesTransferred: buf.Len(),
+					BytesTransferred: int(atomic.LoadInt64(&received)),
 					BytesTotal:       p.compressedSize,
 					Done:             !ok,
 				})
@@ -649,6 +655,7 @@ func (s *Session) readCompressed(rw io.ReadWriter, p *Proposal) (err error) {
 					return
 				}
 				buf.WriteByte(c)
+				atomic.AddInt64(&received, 1)
 				ourChecksum = (ourChecksum + int(c)) % 256
 				if i%10 == 0 {
 					updateStatus()
